@@ -23,6 +23,8 @@ pub struct Output<'a> {
     w: *mut (dyn fmt::Write + 'a),
     target: *mut (dyn fmt::Write + 'a),
     capture_stack: Vec<Option<String>>,
+    #[cfg(feature = "verif_hooks")]
+    verif_id: u64,
 }
 
 impl<'a> Output<'a> {
@@ -32,6 +34,8 @@ impl<'a> Output<'a> {
             w,
             target: w,
             capture_stack: Vec::new(),
+            #[cfg(feature = "verif_hooks")]
+            verif_id: crate::verif_hooks::output::on_new(false),
         }
     }
 
@@ -44,6 +48,8 @@ impl<'a> Output<'a> {
             w: NullWriter::get_mut(),
             target: NullWriter::get_mut(),
             capture_stack: vec![None],
+            #[cfg(feature = "verif_hooks")]
+            verif_id: crate::verif_hooks::output::on_new(true),
         }
     }
 
@@ -55,6 +61,11 @@ impl<'a> Output<'a> {
             CaptureMode::Discard => None,
         });
         self.retarget();
+        #[cfg(feature = "verif_hooks")]
+        crate::verif_hooks::output::on_begin_capture(
+            self.verif_id,
+            matches!(self.capture_stack.last(), Some(None)),
+        );
     }
 
     /// Ends capturing and returns the captured string as value.
@@ -69,6 +80,8 @@ impl<'a> Output<'a> {
             Value::UNDEFINED
         };
         self.retarget();
+        #[cfg(feature = "verif_hooks")]
+        crate::verif_hooks::output::on_end_capture(self.verif_id, &rv);
         rv
     }
 
@@ -85,6 +98,23 @@ impl<'a> Output<'a> {
         // SAFETY: this is safe because we carefully maintain the capture stack
         // to update self.target whenever it's modified
         unsafe { &mut *self.target }
+    }
+
+    /// Where a write is routed right now (verification hook).
+    #[cfg(feature = "verif_hooks")]
+    fn verif_target(&self) -> crate::verif_hooks::output::Target {
+        use crate::verif_hooks::output::Target;
+        match self.capture_stack.last() {
+            Some(Some(_)) => Target::Capture(self.capture_stack.len()),
+            Some(None) => Target::Discard(self.capture_stack.len()),
+            None => Target::Base,
+        }
+    }
+
+    /// The identity of this output in the verification log (verification hook).
+    #[cfg(feature = "verif_hooks")]
+    pub(crate) fn verif_id(&self) -> u64 {
+        self.verif_id
     }
 
     /// The depth of the capture stack (verification hook).
@@ -104,30 +134,98 @@ impl<'a> Output<'a> {
     /// Writes some data to the underlying buffer contained within this output.
     #[inline]
     pub fn write_str(&mut self, s: &str) -> fmt::Result {
-        self.target().write_str(s)
+        #[cfg(not(feature = "verif_hooks"))]
+        {
+            self.target().write_str(s)
+        }
+        #[cfg(feature = "verif_hooks")]
+        {
+            let rv = self.target().write_str(s);
+            crate::verif_hooks::output::on_write_str(
+                self.verif_id,
+                || self.verif_target(),
+                s,
+                rv.is_ok(),
+            );
+            rv
+        }
     }
 
     /// Writes some formatted information into this instance.
     #[inline]
     pub fn write_fmt(&mut self, a: fmt::Arguments<'_>) -> fmt::Result {
-        self.target().write_fmt(a)
+        #[cfg(not(feature = "verif_hooks"))]
+        {
+            self.target().write_fmt(a)
+        }
+        #[cfg(feature = "verif_hooks")]
+        {
+            // same calls on the target, but every piece passes the log
+            fmt::write(&mut VerifTap(self), a)
+        }
+    }
+}
+
+/// Forwards the pieces of a `write_fmt` to the target of an output, one by
+/// one, through the logging `write_str`/`write_char` (verification hook).
+#[cfg(feature = "verif_hooks")]
+struct VerifTap<'x, 'a>(&'x mut Output<'a>);
+
+#[cfg(feature = "verif_hooks")]
+impl fmt::Write for VerifTap<'_, '_> {
+    #[inline]
+    fn write_str(&mut self, s: &str) -> fmt::Result {
+        Output::write_str(self.0, s)
+    }
+
+    #[inline]
+    fn write_char(&mut self, c: char) -> fmt::Result {
+        fmt::Write::write_char(self.0, c)
     }
 }
 
 impl fmt::Write for Output<'_> {
     #[inline]
     fn write_str(&mut self, s: &str) -> fmt::Result {
-        fmt::Write::write_str(self.target(), s)
+        #[cfg(not(feature = "verif_hooks"))]
+        {
+            fmt::Write::write_str(self.target(), s)
+        }
+        #[cfg(feature = "verif_hooks")]
+        {
+            Output::write_str(self, s)
+        }
     }
 
     #[inline]
     fn write_char(&mut self, c: char) -> fmt::Result {
-        fmt::Write::write_char(self.target(), c)
+        #[cfg(not(feature = "verif_hooks"))]
+        {
+            fmt::Write::write_char(self.target(), c)
+        }
+        #[cfg(feature = "verif_hooks")]
+        {
+            let rv = fmt::Write::write_char(self.target(), c);
+            crate::verif_hooks::output::on_write_char(
+                self.verif_id,
+                || self.verif_target(),
+                c,
+                rv.is_ok(),
+            );
+            rv
+        }
     }
 
     #[inline]
     fn write_fmt(&mut self, args: fmt::Arguments<'_>) -> fmt::Result {
-        fmt::Write::write_fmt(self.target(), args)
+        #[cfg(not(feature = "verif_hooks"))]
+        {
+            fmt::Write::write_fmt(self.target(), args)
+        }
+        #[cfg(feature = "verif_hooks")]
+        {
+            Output::write_fmt(self, args)
+        }
     }
 }
 
